@@ -2,7 +2,7 @@
 from vlib import Case, hx, rbytes
 
 # (bs, w, dmode) compiled into harness/src/bin/hb_block.rs
-BLOCK_CFGS = [(1, 1, "inv"), (1, 3, "inv"), (2, 2, "inv"), (3, 4, "unrel"), (5, 3, "inv"), (8, 1, "inv"),
+BLOCK_CFGS = [(1, 1, "inv"), (1, 3, "inv"), (2, 2, "inv"), (2, 7, "inv"), (3, 4, "unrel"), (5, 3, "inv"), (8, 1, "inv"),
               (8, 5, "unrel"), (16, 2, "inv"), (16, 8, "inv"), (16, 7, "unrel"), (17, 3, "inv"), (32, 4, "inv"),
               (255, 2, "inv")]
 
@@ -85,7 +85,7 @@ STREAM_CFGS = [
     (16, 8, "inv", ["ofb", "belt"] + CTR32 + CTR64 + CTR128),
     (32, 4, "inv", ["ofb"] + CTR32 + CTR64 + CTR128), (48, 2, "unrel", ["ofb"] + CTR32 + CTR64 + CTR128),
 ]
-CTS_CFGS = BLOCK_CFGS
+CTS_CFGS = [c for c in BLOCK_CFGS if c != (2, 7, "inv")]    # hb_cts.rs is compiled without the (2,7) configuration
 CTS_KINDS = ["cbc_cs1", "cbc_cs2", "cbc_cs3", "ecb_cs1", "ecb_cs2", "ecb_cs3"]
 
 
